@@ -129,6 +129,31 @@ NEEDS = {
     "C19-6": "is_valid_alignment uses the 32-bit popcount: alignments >= 2^32 are invalid. Needs: assertions on (debug) or a direct look at the predicate.",
     "C20-5": "array element roll-back catches only std::exception. Needs: constructor throwing a non-std type at index >= 1.",
     "C20-6": "joint_array move-into-joint constructor sets other.size_ = 0: the source's moved-from elements are never destroyed. Needs: the move form succeeding, counted constructions.",
+    # round 4
+    "C02-7": "memory_stack::allocate switches stack_ to the new block only after the bad_allocation_size checks (third independent rediscovery of C06-5).",
+    "C02-8": "aligned_allocator move assignment drops min_alignment_. Needs: move assignment from an allocator with a larger minimum, then a request with a smaller alignment.",
+    "C03-7": "memory_pool::try_allocate_array drops the free_list_.empty() guard: on an exactly empty ordered list the search runs through the end proxy. Needs: exhausted array pool, any try_ array request.",
+    "C03-8": "out_of_memory constructor guards the handler call with a thread_local flag that a throwing handler leaves set: later failures on that thread skip the handler. Needs: a handler that throws its own exception, then a second failure.",
+    "C04-7": "small free list insert_chunks sets cur->prev = begin: backward links skip the later chunks of a multi-chunk block inserted below an existing chunk. Needs: > 255 nodes per block, later block at a lower address, release in a later chunk.",
+    "C04-8": "ordered list allocate(n) single-node shortcut is n < node_size_: a request of exactly one node takes two. Needs: array of exactly the node size.",
+    "C05-7": "temporary_stack_list_node push uses one compare_exchange_strong without retry: a stack created concurrently is never linked, never reused, never freed. Needs: two threads creating stacks at once (points 6/7).",
+    "C05-8": "virtual_block_allocator::deallocate_block decommits before moving cur_: the returned block stays committed, the pages above are decommitted. Needs: a look at page state, or a full arena.",
+    "C06-7": "memory_stack::unwind checks contains(m.top) (half-open) instead of comparing the block end: a marker taken on an exactly full block is reported. Needs: marker at capacity_left() == 0, growth, unwind.",
+    "C06-8": "memory_arena::next_block_size subtracts the header offset for cached blocks too (rediscovery of C18-3).",
+    "C08-7": "fallback_allocator::try_deallocate_array drops the result of the second attempt. Needs: nested fallback as default, array served by the inner fallback.",
+    "C08-8": "memory_pool_collection::try_deallocate_node refuses node_size >= max_node_size() (rediscovery of C04-6).",
+    "C09-7": "binary_segregator::deallocate_array asks use_allocate_node(count*size). Needs: a Segregatable whose array rule differs from its node rule.",
+    "C09-8": "allocate_unique releases its guard before the constructor runs. Needs: throwing constructor.",
+    "C10-7": "std_allocator's shared tag is computed from the reference type: shared allocators compare by the address of the embedded copy. Needs: an is_shared_allocator type, equality of copies.",
+    "C10-8": "allocator_storage::allocate_array keeps the mutex when the allocator throws (rediscovery of C03-5).",
+    "C13-8": "is_thread_safe_allocator is true for every empty class: an empty allocator that declares itself stateful gets no mutex. Needs: such an allocator, two threads.",
+    "C13-9": "allocator_storage::allocate_array/deallocate_array return early for count == 1, before the lock. Needs: one-element arrays from one thread while another uses the storage.",
+    "C14-7": "the thread exit detector keeps its own stack pointer, which ~temporary_stack_initializer does not reset: a thread releases the same stack again at exit. Needs: initializer scope ended, stack adopted by another thread, first thread exits.",
+    "C14-8": "find_unused claims a stack with a relaxed CAS: no happens-before between the old and the new owner. Needs: ThreadSanitizer, no other synchronisation between the two threads.",
+    "C16-7": "memory_stack::unwind re-evaluates its loop bound while the arena shrinks: about half the blocks are returned and the valid marker is reported. Needs: unwind across two or more blocks.",
+    "C16-8": "small free list insert_chunks sets cur->prev = begin (same change as C04-7): a valid release is reported / crashes.",
+    "C19-7": "composable traits of memory_pool_collection pass (size, count): the bucket is chosen by the element count. Needs: composable array with count and size selecting different buckets.",
+    "C19-8": "allocator_traits<memory_pool_collection>::allocate_array checks alignment_for(count*size). Needs: alignment above alignment_for(size), traits interface.",
 }
 res = {}
 if os.path.exists("/tmp/mut/results.jsonl"):
